@@ -9,7 +9,7 @@ import subprocess
 import sys
 import tempfile
 
-WT = '/tmp/wt/mine'
+WT = os.environ.get('SEEDS_WT', '/tmp/wt/mine')
 
 
 def sh(cmd):
